@@ -208,7 +208,11 @@ func TestVerifC01(t *testing.T) { runProp(t, propC01) }
 func TestVerifC03(t *testing.T) { runProp(t, propC03) }
 func TestVerifC05(t *testing.T) { runProp(t, propC05) }
 
-var propC09 = &propDef{id: "C09", oracles: []oracleFn{oracleC09}, scenarios: c09Scenarios, post: drainC09}
+// C09 quantifies over reconfigurations too (accepted and rejected, incl. options toggled between a container's admission
+// and its release): the reconfiguration scenarios of C13 are part of its driver.
+var propC09 = &propDef{id: "C09", oracles: []oracleFn{oracleC09}, scenarios: func(thorough bool) []*scenario {
+	return append(c09Scenarios(thorough), c13Scenarios(thorough)...)
+}, post: drainC09}
 
 func TestVerifC09(t *testing.T) { runProp(t, propC09) }
 
